@@ -100,7 +100,7 @@ pub fn instantiate(t: T, client: usize, key: &[u8], other: &[u8]) -> Cmd {
         T::IncrCurZero => Cmd::Delta { incr: true, key: k, delta: 0, initial: 100, exp: 0, cas: CasArg::Current, quiet: false },
         T::IncrStaleZero => Cmd::Delta { incr: true, key: k, delta: 0, initial: 100, exp: 0, cas: CasArg::Stale1, quiet: false },
         T::SetNum => Cmd::Store { kind: StoreKind::Set, key: k, value: format!("{}", 100 + client).into_bytes(), flags: 130 + client as u32, ttl: 0, cas: CasArg::Zero, quiet: false },
-        T::SetTtl => Cmd::Store { kind: StoreKind::Set, key: k, value: tag("T"), flags: 110 + client as u32, ttl: 2, cas: CasArg::Zero, quiet: false },
+        T::SetTtl => Cmd::Store { kind: StoreKind::Set, key: k, value: tag("T"), flags: 110 + client as u32, ttl: 1, cas: CasArg::Zero, quiet: false },
         T::AddTtl => Cmd::Store { kind: StoreKind::Add, key: k, value: tag("U"), flags: 120 + client as u32, ttl: 2, cas: CasArg::Zero, quiet: false },
         T::AppendStale => Cmd::Concat { append: true, key: k, value: tag("+"), cas: CasArg::Stale1, quiet: false },
         T::PrependStale => Cmd::Concat { append: false, key: k, value: tag("-"), cas: CasArg::Stale1, quiet: false },
@@ -238,6 +238,19 @@ pub fn c03_families(tier: Tier) -> Vec<Family> {
         }
         fams.push(Family { name: name.into(), programs: progs, opts: opts(if tier == Tier::Quick { 2 } else { 64 }, tier) });
     }
+    // a store that carries a TTL over a predecessor (expired and uncollected, or live): the new item
+    // lives from *its* store time - a get, racing or right behind it, finds it
+    let mut progs = vec![];
+    for init in [Init::Expired, Init::Present] {
+        for prog in [
+            vec![vec![T::SetTtl], vec![T::Get]],
+            vec![vec![T::SetTtl, T::Get], vec![T::Get]],
+            vec![vec![T::SetTtl], vec![T::Get], vec![T::Get]],
+        ] {
+            progs.push(mk(init, prog, K, K, keys.clone(), Policy::None));
+        }
+    }
+    fams.push(Family { name: "ttl-store-over-predecessor".into(), programs: progs, opts: opts(if tier == Tier::Quick { 2 } else { 64 }, tier) });
     fams
 }
 
@@ -293,6 +306,14 @@ pub fn c04_families(tier: Tier) -> Vec<Family> {
             }
             progs.push(mk(Init::Present, vec![vec![*g], vec![*o]], K, K, keys.clone(), Policy::None));
         }
+    }
+    // a token read before a flush names a version that is gone: whatever is stored afterwards is
+    // another item (the guarded command must lose against it, and no new version may carry an old number)
+    // (append only: a guarded incr that meets the flushed key half-way creates a counter - the
+    // recorded get-then-set defect, which these programs are not about)
+    for g in [T::AppendCur, T::PrependCur] {
+        progs.push(mk(Init::Present, vec![vec![g], vec![T::Flush, T::SetNum]], K, K, keys.clone(), Policy::None));
+        progs.push(mk(Init::Present, vec![vec![g], vec![T::Flush, T::SetNum, T::SetNum]], K, K, keys.clone(), Policy::None));
     }
     // two clients sending the very same guarded command (same operand, same token): still only one wins
     for g in [T::IncrCurSame, T::DecrCurSame, T::AppendCurSame, T::PrependCurSame] {
